@@ -32,7 +32,7 @@ ASSUMPTIONS = [
     'perftrack steps run with the cyclic garbage collector disabled in the child so that the outcome is a deterministic '
     'function of the history (see the known finding about trainer liveness)',
 ]
-FLOORS = {'cross-process-load': 0.6, 'incremental': 0.3, 'serve': 0.15, 'perftrack': 0.15, 'explicit-generation': 0.1}
+FLOORS = {'cross-process-load': 0.6, 'incremental': 0.3, 'serve': 0.1, 'perftrack': 0.05, 'explicit-generation': 0.1, 'same-process-use': 0.08}
 LEVEL_TEXT = (
     'Generated-history search against a reference model: every stateful actor is an uninterpreted symbol whose state term '
     'records which actor trained it, on what data and on top of which previous state, so after every apply/eval/serve step '
@@ -72,6 +72,11 @@ def histories(draw):
                 steps.append({'op': 'train'})
                 continue
         step = {'op': op}
+        if op == 'train' and draw(st.integers(0, 3)) == 0:
+            # use the freshly committed generation in the *same* process (warm caches, same interpreter)
+            step['then'] = draw(st.sampled_from(['apply', 'serve', 'perftrack']))
+            if step['then'] == 'serve':
+                step['entries'] = draw(st.lists(st.sampled_from(['e1', 'e2', 'e3']), min_size=1, max_size=2))
         if op != 'train':
             # which generation: None = latest of the latest release, or explicit (release index, generation back-offset)
             step['pick'] = draw(st.sampled_from([None, None, [draw(st.integers(0, 1)), draw(st.integers(0, 2))]]))
@@ -202,7 +207,17 @@ def check_history(ctx, spec):
             if op == 'train':
                 if model.releases[latest_release]:
                     cls.add('incremental')
-                res = lc.run_step({'id': sid, 'op': 'train', 'nonce': nonce, 'release': None}, workdir)[0]
+                chain = []
+                if step.get('then'):
+                    use = {'id': f'{sid}b', 'op': step['then'], 'nonce': nonce + 1000, 'release': f'{latest_release + 1}.0',
+                           'generation': len(model.releases[latest_release]) + 1}
+                    if step['then'] == 'serve':
+                        use['entries'] = step['entries']
+                    if step['then'] == 'perftrack':
+                        use['nogc'] = os.environ.get('VF_C04_GC') != '1'
+                    chain.append(use)
+                results = lc.run_step({'id': sid, 'op': 'train', 'nonce': nonce, 'release': None}, workdir, chain)
+                res = results[0]
                 if not res['ok']:
                     ctx.fail(spec, 'train-raises', f"{res['error']}@{res['frame']}", res['message'] + res.get('trace', '')[-600:])
                     return
@@ -210,6 +225,10 @@ def check_history(ctx, spec):
                 want_gen = len(model.releases[latest_release])
                 if res['generation'] != want_gen:
                     ctx.fail(spec, 'train', 'generation-number', f"got generation {res['generation']} expected {want_gen}")
+                if chain and len(results) > 1:
+                    cls.add('same-process-use')
+                    cls.add(step['then'])
+                    judge(ctx, spec, model, step['then'], results[1], latest_release, want_gen - 1, nonce + 1000, step.get('entries'), 'same-process')
                 continue
             # pick the generation
             pick = step.get('pick')
@@ -234,39 +253,45 @@ def check_history(ctx, spec):
             if op == 'perftrack':
                 request['nogc'] = os.environ.get('VF_C04_GC') != '1'
             res = lc.run_step(request, workdir)[0]
-            tags = []
-            if op == 'perftrack' and model.head_fed_trainers():
-                tags = ['head-fed-trainer']
-            if not res['ok']:
-                ctx.fail(spec, f'{op}-raises', f"{res['error']}@{res['frame']}", res['message'] + res.get('trace', '')[-600:], tags)
-                continue
-            a, t, l = lc.source_terms(nonce)
-            if op == 'apply':
-                want = [model.output(rel, gen, a)]
-                got = res['records']
-            elif op == 'perftrack':
-                want = [T('metric', l, model.output(rel, gen, t))]
-                got = res['records']
-            else:
-                want = [model.output(rel, gen, lc.serve_input(nonce, e)) for e in step['entries']]
-                got = res['returned']
-            if len(got) != len(want):
-                ctx.fail(spec, f'{op}-output', 'count', f'{len(got)} outputs for {len(want)} expected', tags)
-                continue
-            for w, g in zip(want, got):
-                if w != g:
-                    from vf.checks import c03
-
-                    kind, detail = c03.diff_kind(w, g) if isinstance(g, term.Term) else ('not-a-term', repr(g)[:200])
-                    # which state did the offending actor get instead?
-                    ctx.fail(spec, f'{op}-state-binding', kind, detail, tags)
-                    break
+            judge(ctx, spec, model, op, res, rel, gen, nonce, step.get('entries'), '')
     finally:
         if loads:
             cls.add('cross-process-load')
         ctx.case(spec, nontrivial=bool(loads) and len(model.persistent) >= 2, classes=sorted(cls))
         term.clear()
         shutil.rmtree(workdir, ignore_errors=True)
+
+
+def judge(ctx, spec, model, op, res, rel, gen, nonce, entries, where):
+    """Compare the outcome of one apply-like step with the model state of generation (rel, gen)."""
+    step = {'entries': entries}
+    tags = [where] if where else []
+    if op == 'perftrack' and model.head_fed_trainers():
+        tags = tags + ['head-fed-trainer']
+    if not res['ok']:
+        ctx.fail(spec, f'{op}-raises', f"{res['error']}@{res['frame']}", res['message'] + res.get('trace', '')[-600:], tags)
+        return
+    a, t, l = lc.source_terms(nonce)
+    if op == 'apply':
+        want = [model.output(rel, gen, a)]
+        got = res['records']
+    elif op == 'perftrack':
+        want = [T('metric', l, model.output(rel, gen, t))]
+        got = res['records']
+    else:
+        want = [model.output(rel, gen, lc.serve_input(nonce, e)) for e in step['entries']]
+        got = res['returned']
+    if len(got) != len(want):
+        ctx.fail(spec, f'{op}-output', 'count', f'{len(got)} outputs for {len(want)} expected', tags)
+        return
+    for w, g in zip(want, got):
+        if w != g:
+            from vf.checks import c03
+
+            kind, detail = c03.diff_kind(w, g) if isinstance(g, term.Term) else ('not-a-term', repr(g)[:200])
+            # which state did the offending actor get instead?
+            ctx.fail(spec, f'{op}-state-binding', kind, detail, tags)
+            break
 
 
 def campaigns(ctx):
